@@ -331,6 +331,35 @@ pub fn execute(t: &Trace, with_child: bool, passthrough_child: bool) -> C09Out {
     }
     let b1 = tb.unwrap();
     {
+        // an image written with tags enabled, loaded by an engine that has none enabled, is the
+        // engine of the plain list again: its bytes are those of the untagged build
+        let b = b1.clone();
+        let opt = w.knobs.optimize;
+        let r = on_thread(Some(kr.next()), kr.next(), 1, move || {
+            let mut e = Engine::new(opt);
+            if seams::track(|| e.deserialize(&b)).is_err() {
+                return Err("deserialize failed".to_string());
+            }
+            e.serialize_raw().map_err(|e| format!("{:?}", e))
+        });
+        out.reloads += 1;
+        match r {
+            Some(Ok(b2)) if b2 == b0 => {}
+            Some(Ok(b2)) => {
+                out.violation = Some(viol("reload-fixpoint", "bytes tagged image loaded into an engine without tags vs the untagged build", first_diff(&b2, &b0), "identical buffers".into()));
+                return out;
+            }
+            Some(Err(e)) => {
+                out.violation = Some(viol("reload-fixpoint", "reload error", e, "Ok".into()));
+                return out;
+            }
+            None => {
+                out.violation = Some(viol("no-panic", "panic while reloading tagged image", last_panic(), "no panic".into()));
+                return out;
+            }
+        }
+    }
+    {
         let b = b1.clone();
         let tg = tags.clone();
         let opt = w.knobs.optimize;
